@@ -136,8 +136,9 @@ func histAlphabet(p histParams) authAlphabet {
 	if p.Alphabet == "c04" {
 		return authAlphabet{
 			Validate: []harness.AuthAnswer{ans(200, "{}"), ans(401, `{"error":"invalid"}`)},
-			Profile:  []harness.AuthAnswer{member, removed},
-			Refresh:  []harness.AuthAnswer{okRefresh, ans(401, `{"error":"revoked"}`), ans(403, "denied")},
+			// (the last one: still in groups, but only in ones whose names differ from the listed one in case or length)
+			Profile: []harness.AuthAnswer{member, removed, ans(200, `{"email":"x","groups":["ENG","Eng","engineering"]}`)},
+			Refresh: []harness.AuthAnswer{okRefresh, ans(401, `{"error":"revoked"}`), ans(403, "denied")},
 		}
 	}
 	faults := func(ok harness.AuthAnswer, denied harness.AuthAnswer, malformedStatus int) []harness.AuthAnswer {
